@@ -589,7 +589,7 @@ class SimulationAlgorithm(BaseSimulationAlgorithm):
         for i, feat in enumerate(self.features):
             if model.parameters["noise_std"].numel() == 1:
                 mu = df_long[feat + "_no_noise"]
-                var = model.parameters["noise_std"].numpy() ** 2
+                var = model.parameters["noise_std"].item() ** 2
             else:
                 mu = df_long[feat + "_no_noise"]
                 var = model.parameters["noise_std"][i].numpy() ** 2
